@@ -50,7 +50,7 @@ func c20BSP(r *enum.R) *c20sdk.Component {
 			{Kind: "env", Env: "OTEL_BSP_MAX_QUEUE_SIZE", Alts: c20sdk.EnvAlts(1000, 50, 1, "unspec", "invalid")}}},
 		{Name: "max_export_batch_size", Default: DefaultMaxExportBatchSize, Sources: []c20sdk.Source{
 			{Kind: "option", Alts: c20sdk.OptAlts(20, "unspec", "invalid", 0)},
-			{Kind: "env", Env: "OTEL_BSP_MAX_EXPORT_BATCH_SIZE", Alts: c20sdk.EnvAlts(30, 700, 1, "unspec", "invalid")}}},
+			{Kind: "env", Env: "OTEL_BSP_MAX_EXPORT_BATCH_SIZE", Alts: c20sdk.EnvAlts(50, 1000, 1, "unspec", "invalid")}}}, // the two queue sizes of the environment alphabet: a batch size EQUAL to the queue size (below and above the default batch size) is in range
 		{Name: "schedule_delay", Default: DefaultScheduleDelay * ms, Sources: []c20sdk.Source{
 			{Kind: "option", Alts: c20sdk.OptAlts(int64(7*time.Second), "unspec", "invalid", math.MaxInt64)},
 			{Kind: "env", Env: "OTEL_BSP_SCHEDULE_DELAY", Alts: c20sdk.EnvAlts(1500, 250, ms, "unspec", "invalid")}}},
